@@ -185,7 +185,13 @@ func runC03(c *Ctx) error {
 	c.Rule = "conflict-free grammars with random recorder / default / empty actions ($i, $Ti, multi-digit indices, $Context); inputs = sentences, and for each a few placements of a failing action; the recorded event log (scans, action calls with argument identities, result) must equal the post-order evaluation by M-LR1; non-trivial = accepted sentence whose log contains at least one action call; distinct by (grammar, tokens, failing occurrence)"
 	c.Assumptions = []string{"M-LR1's reduction order equals the post-order of the unique parse tree of an unambiguous grammar", "token identity is observed as pointer identity of the *token.Token handed out by the harness scanner"}
 	jobs := genSynJobs(c.Rng, nG*2/3, "g", synFilter{class: func(k model.LRClass) bool { return k == model.ClassClean }, nonEmpty: true, actionMode: 0, flags: flagsZipAlternate,
-		family: func(i int) string { return []string{"long", "", "nullable", "", "long", "", "list", ""}[i%8] }})
+		family: func(i int) string { return []string{"long", "optafter", "nullable", "", "long", "optafter", "list", ""}[i%8] },
+		actionModeOf: func(i int) int {
+			if i%4 == 1 {
+				return 3 // every value visible, empty alternatives action-less
+			}
+			return 0
+		}})
 	// conflict-free grammars that also carry error alternatives: a failing action must stop Parse there too
 	jobs = append(jobs, genSynJobs(c.Rng, nG-len(jobs), "e", synFilter{class: func(k model.LRClass) bool { return k == model.ClassClean }, withErrors: true, nonEmpty: true, actionMode: 1, flags: flagsZipAlternate})...)
 	jobs = append(jobs, corpusSynJobs(c, c.Rng, "k", synFilter{class: func(k model.LRClass) bool { return k == model.ClassClean }, nonEmpty: true, actionMode: 0, flags: flagsZipAlternate})...)
